@@ -21,9 +21,9 @@ fi
 git -C $wt diff > /tmp/seed_patch_$name.diff
 tests=$(cd $wt && /venv/bin/python -m pytest -q -p no:cacheprovider --timeout=900 --continue-on-collection-errors 2>&1 | tail -1)
 echo "baseline with patch: $tests" | tee -a $log
-(cd $wt && PYTHONPATH=$wt:/tmp/dl-shims timeout 600 /venv/bin/python "$src/demo.py" >>$log 2>&1); demo_with=$?
+(cd $wt && PYTHONPATH=$wt:/verif/shims timeout 600 /venv/bin/python "$src/demo.py" >>$log 2>&1); demo_with=$?
 git -C $wt checkout -q -- .
-(cd $wt && PYTHONPATH=$wt:/tmp/dl-shims timeout 600 /venv/bin/python "$src/demo.py" >>$log 2>&1); demo_without=$?
+(cd $wt && PYTHONPATH=$wt:/verif/shims timeout 600 /venv/bin/python "$src/demo.py" >>$log 2>&1); demo_without=$?
 echo "demo exit with patch=$demo_with without=$demo_without" | tee -a $log
 case "$tests" in *"87 passed"*) ;; *) echo "RESULT $name: baseline tests do not pass with the patch"; exit 4;; esac
 if [ $demo_with -eq 0 ] || [ $demo_without -ne 0 ]; then echo "RESULT $name: demo does not discriminate"; exit 5; fi
